@@ -1684,7 +1684,8 @@ static void *peg_unmarshal(JanetMarshalContext *ctx) {
                 break;
             case RULE_ARGUMENT:
                 if (left < 3) goto bad;
-                /* [searchtag, tag] */
+                /* [argument-index, tag] - the index is read back as an int32_t */
+                if (rule[1] > INT32_MAX) goto bad;
                 i += 3;
                 break;
             case RULE_GETTAG:
